@@ -43,6 +43,28 @@ def _atom(z, is_int):
 
 def reset_atoms():
     _ATOMS.clear()
+    _INV_OF.clear()
+    _INV_ATOM.clear()
+
+
+# reciprocal atoms of single atoms: inv(a) * a cancels syntactically in _mono_mul (a != 0 is established on the path
+# before the reciprocal is formed, exactly where Python would raise ZeroDivisionError)
+_INV_OF = {}
+_INV_ATOM = {}
+
+
+def _inv_atom(a):
+    """Atom id of 1/a for the atom id a (the base atom itself if a is already a reciprocal atom)."""
+    if a in _INV_OF:
+        return _INV_OF[a]
+    if a in _INV_ATOM:
+        return _INV_ATOM[a]
+    z, ai = _ATOMS[a]
+    zi = 1 / (z3.ToReal(z) if ai else z)
+    i = _atom(zi, False)
+    _INV_ATOM[a] = i
+    _INV_OF[i] = a
+    return i
 
 
 _ONE = ()
@@ -56,6 +78,15 @@ def _mono_mul(m1, m2):
     d = dict(m1)
     for a, p in m2:
         d[a] = d.get(a, 0) + p
+    if _INV_OF:
+        for a in list(d):
+            b = _INV_OF.get(a)
+            if b is not None and b in d and a in d:
+                k = min(d[a], d[b])
+                for x in (a, b):
+                    d[x] -= k
+                    if d[x] == 0:
+                        del d[x]
     return tuple(sorted(d.items()))
 
 
@@ -253,6 +284,11 @@ class SymNum:
             return SymNum.const(1 / c, False)
         if bool(SymBool(self.z3() == 0)):
             raise ZeroDivisionError('division by (symbolic) zero')
+        if len(self.terms) == 1:
+            # reciprocal of a monomial c*a1^p1*...: product of reciprocal atoms (cancels against the atoms themselves)
+            (m, c), = self.terms.items()
+            mono = tuple(sorted((_inv_atom(a), p) for a, p in m))
+            return SymNum({mono: 1 / c}, False)
         # canonical inverse atom: 1/self = f * inv(q) with q = f*self having coprime integer coefficients and a
         # positive leading coefficient (monomials in sorted order), so 1/(x-y) and 1/(y-x) share one atom.
         q = _normalised(self)
@@ -395,6 +431,14 @@ class SymNum:
         if self.is_const():
             return SymNum.const(abs(self.const_value()), self.is_int).lower()
         z = self.z3()
+        c = _CTX[0]
+        if c is not None and getattr(c, 'abs_implied', False):
+            # opt-in: when the path condition fixes the sign, |x| is x or -x (keeps polynomial normal forms syntactic)
+            sg = c.implied_sign(z)
+            if sg > 0:
+                return self
+            if sg < 0:
+                return -self
         return SymNum.from_z3(z3.If(z >= 0, z, -z)).lower()
 
     # -- comparisons ------------------------------------------------------------------------------
@@ -923,6 +967,15 @@ class Context:
             elif r == z3.unsat:
                 raise PathInfeasible()
         return self.model
+
+    def implied_sign(self, z):
+        """+1 if the path condition implies z >= 0, -1 if it implies z <= 0, else 0 (not a decision: a pure function of the path)."""
+        zero = z3.IntVal(0) if z.sort().kind() == z3.Z3_INT_SORT else z3.RealVal(0)
+        if self._check(z < zero) == z3.unsat:
+            return 1
+        if self._check(z > zero) == z3.unsat:
+            return -1
+        return 0
 
     def _eval(self, model, c):
         try:
